@@ -19,6 +19,7 @@ CONSTANTS
   Serialized = FALSE
   DirectAPI = FALSE
   MaxLen = 70
+  Wanted = {}
 CHECK_DEADLOCK FALSE
 ACTION_CONSTRAINT CoarseSchedule
 INVARIANTS TypeOK SizeBound ReportedExactlyOnce ViewBookkeeping PeersResult
